@@ -24,6 +24,12 @@ def is_map(x):
     return isinstance(x, dict)
 
 
+def _mapcls(x):
+    """the class whose C-level methods to use: OrderedDict keeps its own order list, so it must not be
+    written through dict.__setitem__; simulator-owned dict subclasses are written through dict (no points)"""
+    return OrderedDict if isinstance(x, OrderedDict) else dict
+
+
 def is_seq(x):
     return isinstance(x, (list, tuple))
 
@@ -82,7 +88,7 @@ def set_seg(cur, op, arg, val):
     """the plain assignment; raises on failure"""
     if op == 'P':
         if is_map(cur):
-            dict.__setitem__(cur, arg, val)
+            _mapcls(cur).__setitem__(cur, arg, val)
             return
         if isinstance(cur, list):
             list.__setitem__(cur, int(arg), val)
@@ -93,7 +99,7 @@ def set_seg(cur, op, arg, val):
         return
     if op == '[':
         if is_map(cur):
-            dict.__setitem__(cur, arg, val)
+            _mapcls(cur).__setitem__(cur, arg, val)
         elif isinstance(cur, list):
             list.__setitem__(cur, arg, val)
         else:
@@ -121,7 +127,7 @@ def del_seg(cur, op, arg):
     """-> raises KeyError/IndexError/AttributeError for clean absence, others for other failures"""
     if op == 'P':
         if is_map(cur):
-            dict.__delitem__(cur, arg)
+            _mapcls(cur).__delitem__(cur, arg)
             return
         if isinstance(cur, list):
             list.__delitem__(cur, int(arg))
@@ -132,7 +138,7 @@ def del_seg(cur, op, arg):
         return
     if op == '[':
         if is_map(cur):
-            dict.__delitem__(cur, arg)
+            _mapcls(cur).__delitem__(cur, arg)
         elif isinstance(cur, list):
             list.__delitem__(cur, arg)
         else:
